@@ -858,6 +858,7 @@ func handleRestore(execCtx *rapidContext, restore *interop.Restore) (interop.Res
 	startTime := metering.Monotime()
 
 	runtime.Release()
+	verifhook.Point("handleRestore.released")
 
 	initFlow := execCtx.initFlow
 	err = initFlow.AwaitRuntimeReadyWithDeadline(ctx)
